@@ -141,10 +141,17 @@ def io_loops(ctx, prog, A):
                 exits.append((bn, s, render(strip_casts(c))))
     kinds = set()
     for bn, s, r in exits:
-        if 'read()' in r:
-            kinds.add('eof')
-        elif 'param:vacant' in r:
-            kinds.add('full')
+        t = f.blocks[bn].term
+        c, pol = peel_cond(P.expr(t.ops[0])) if t.ops else (('const', 1), True)
+        cn = cmp_norm(c)
+        on_true = t.op == 'br' and len(t.extra['targets']) == 2 and t.extra['targets'][0] == s
+        if cn is not None and cn[2] == ('const', 0) and cn[0] in ('eq', 'ne') and strip_casts(cn[1])[0] == 'call' and \
+                strip_casts(cn[1])[2] is rd[0] and ((cn[0] == 'eq') == (on_true == pol)):
+            kinds.add('eof')                # left on read() == 0
+        elif cn is not None and cn[2] == ('const', 0) and 'param:vacant' in render(cn[1]) and \
+                strip_casts(cn[1])[0] == 'load' and \
+                ((cn[0] in ('ugt', 'ne') and on_true != pol) or (cn[0] == 'eq' and on_true == pol)):
+            kinds.add('full')               # left on *vacant == 0
         else:
             kinds.add('other:' + r)
     ctx.ob('C21.xread', 'the read loop is left only at end of file or when the chunk is full', f.loc(rd[0]),
